@@ -7,7 +7,11 @@ INVARIANT TypeOK
 INVARIANT PowerAndTimerAgree
 INVARIANT ReportedNormalised
 INVARIANT SeesTheCommand
+INVARIANT ViewsAgreeAlways
+INVARIANT ReadSeesTheCommand
+PROPERTY QueriesAreReadOnly
 PROPERTY NoDeliveryWhileStopped
 PROPERTY TimerCountsDown
 PROPERTY OnlyCommandsAndTimeChangeTheDevice
+CONSTRAINT ShortOn
 CHECK_DEADLOCK FALSE
